@@ -154,6 +154,10 @@ def handleSame : Handler := fun input _ =>
               if Selene.Props.C10.severityOf cfg d.code != some d.sev then
                 agree := false
                 notes := notes ++ [s!"{d.code}: model severity {(Selene.Props.C10.severityOf cfg d.code).map showSev}, implementation {showSev d.sev}"]
+                if spec.isNone then
+                  spec := some (s!"[C10] severity: a diagnostic of `{d.code}` carries severity {showSev d.sev} under the configuration {scfg}, where " ++
+                    (if cfg.any (fun p => p.1 == d.code) then "the configuration sets" else "the lint is absent from the configuration and its built-in default is") ++
+                    s!" {(Selene.Props.C10.severityOf cfg d.code).map showSev}")
             let erased := sortStrs (unf.map fun d => s!"{d.code}|{d.start}|{d.tag}")
             match reference with
             | none => reference := some erased
